@@ -28,6 +28,7 @@ def rotatedToric3DCodeQuery (Lx Ly Lz : Nat) : List String → Option String
   | ["deform", name, axis, c] =>
     some (match RotatedToric3DCode.getDeformation Lx Ly Lz name (if axis == "-" then none else some axis) (parseCoord c) with
       | none => "ERR value" | some m => Lat3Db.showPauliMap m)
+  | ["rankfamily"] => some (rotatedToric3DCodeShowCoords (RotatedToric3DCode.rankFamily Lx Ly Lz))
   | ["n"] => some (toString (RotatedToric3DCode.lattice Lx Ly Lz).toCodeData.n)
   | ["k"] => some (toString (RotatedToric3DCode.lattice Lx Ly Lz).toCodeData.k)
   | _ => none
